@@ -226,7 +226,7 @@ Proof. exact external_closes. Qed.
 (* non-vacuity: a vault-initiated auction (target 1120000 = 1000000 + 12 %, internal keeper, 10 %
    incentive) takes a partial bid, a tick, and a closing bid; everything is distributed *)
 Definition ex_cf : acfg := mkCfg (12 * P18 / 10) (7 * P18 / 10) 3600 100000 (P18 / 10) 1000000 1000000.
-Definition ex_lk : locked := mkLk 1000000 1120000 120000 0 0 true false.
+Definition ex_lk : locked := mkLk 1000000 1120000 120000 0 0 true false false.
 Definition ex_led : ledger := fun k => if k =? 0 then 1000000 else if k =? 11 then 5000000 else if k =? 13 then 5000000 else 0.
 Example c10_nonvacuous :
   exists a0, activate ex_cf ex_lk 0 (Some 1200000) (Some 1000000) = Ok a0 /\
@@ -336,6 +336,33 @@ Theorem c10_partial_no_penalty : forall auto cf lk a s who amt0 wd twa s' b r,
 Proof. exact partial_no_penalty. Qed.
 Print Assumptions c10_partial_no_penalty.
 
+(* "When the auction ends ..." presupposes that it can end.  FALSE for a lend-initiated auction of a CROSS-POOL
+   borrow whose lend position was used up by the borrow (known finding C10-F7): UpdateLockedBorrows deletes the
+   emptied lend position when the borrow is seized; MsgCloseDutchAuctionForBorrow later looks that position up
+   for the pool to return the bridged amount to, gets the zero value, and sends the amount to the module
+   account "" - the bank keeper panics, the closing bid is rolled back.  Partial bids go through, so bidders'
+   payments pile up in the auction account while no bid - market or automatic, of any amount - can ever close
+   the auction.  Witness = harness TestC10Lend (first seen: VERIF_SEED=1 case 15 step 7). *)
+Theorem c10_lend_close_refuted :
+  kf_C10_7 s_lk = true /\
+  place_bid_core s_cf s_lk s_au (mkS s_led None 0 0) 0 1050000 false 1000000 = Panic /\
+  place_bid_core s_cf s_lk s_au (mkS s_led None 0 0) 0 9999999 false 1000000 = Panic /\
+  (exists s' b r, place_bid_core s_cf s_lk s_au (mkS s_led None 0 0) 0 500000 false 1000000 = Ok (s', Some b, r)) /\
+  (forall auto cf lk a s who amt wd twa s' r,
+     place_bid_gen auto cf lk a s who amt wd twa = Ok (s', None, r) -> kf_C10_7 lk = false).
+Proof.
+  destruct lend_close_stuck as (A & B & C & D). repeat split; auto. exact stuck_never_closes.
+Qed.
+Print Assumptions c10_lend_close_refuted.
+
+(* outside the class the lend-initiated settlement goes through whenever the auction account holds the target
+   debt (which c10_custody guarantees at the closing bid): exactly the target debt moves to the lending pool *)
+Theorem c10_lend_close_partial : forall cf lk L xf nf,
+  l_init lk <> 0 -> l_init lk <> 2 -> kf_C10_7 lk = false -> 0 <= l_target lk <= L AUC_D ->
+  exists L', settle cf lk L xf nf = Ok (L', xf, nf) /\ L' POOL_D = L POOL_D + l_target lk /\ L' AUC_D = L AUC_D - l_target lk.
+Proof. exact lend_settle_live. Qed.
+Print Assumptions c10_lend_close_partial.
+
 (* regression, C10-F5 (fixed) = harness corpus case 4: external auction, target 1 120 000 (penalty 120 000),
    collateral 1 000 000, app reserve 10 000 000, limit bid 3 000 000 at discount 9; block at t = 2940 s
    (posted price 0.906, discount 9.4 %).  The bid is cut down to the value of the collateral, 906 000; the
@@ -343,7 +370,7 @@ Print Assumptions c10_partial_no_penalty.
    against a posted 0.906) and 214 000 stayed in the auction account owned by nothing; now it is charged
    906 000 and the account holds exactly the remaining limit bid plus the booked penalty *)
 Definition f_cf : acfg := mkCfg (12 * P18 / 10) (7 * P18 / 10) 3600 0 0 1000000 1000000.
-Definition f5_lk : locked := mkLk 1000000 1120000 120000 0 2 false false.
+Definition f5_lk : locked := mkLk 1000000 1120000 120000 0 2 false false false.
 Definition f5_led : ledger := fun k => if k =? 0 then 1000000 else if k =? 7 then 10000000 else if k =? 11 then 5000000 else 0.
 Example c10_fill_cut_down_regression :
   exists a0, activate f_cf f5_lk 0 (Some 1000000) (Some 1000000) = Ok a0 /\
@@ -360,7 +387,7 @@ Proof. eexists. split; [vm_compute; reflexivity|]. vm_compute. repeat split; ref
    bids were placed on the auction copy read before the loop: the record ended at debt 500 002 / collateral
    1 000 005 while 1 058 ucol had left the account for 1 000 uharbor.  Now the second bid sees what the first
    left: debt 499 003, collateral 998 948 = what the account holds *)
-Definition f6_lk : locked := mkLk 1000006 500003 0 0 2 false false.
+Definition f6_lk : locked := mkLk 1000006 500003 0 0 2 false false false.
 Definition f6_led : ledger := fun k => if k =? 0 then 1000006 else if k =? 11 then 5000000 else if k =? 13 then 5000000 else 0.
 Example c10_fill_two_partials_regression :
   exists a0, activate f_cf f6_lk 0 (Some 1000000) (Some 1000000) = Ok a0 /\
@@ -378,7 +405,7 @@ Qed.
    bids 3 000 000 (bidder 0) and 250 000 (bidder 1) at discount 5.  Before the repair the first bid closed the
    auction, the second failed on the stale copy and the closure was rolled back on every block; now the
    closure ends with the closing bid, bidder 1's limit bid is untouched *)
-Definition f6c_lk : locked := mkLk 2000000 1000000 0 0 2 false false.
+Definition f6c_lk : locked := mkLk 2000000 1000000 0 0 2 false false false.
 Definition f6c_led : ledger := fun k => if k =? 0 then 2000000 else if k =? 11 then 5000000 else if k =? 13 then 5000000 else 0.
 Example c10_fill_closing_first_regression :
   exists a0, activate f_cf f6c_lk 0 (Some 1000000) (Some 1000000) = Ok a0 /\
